@@ -14,7 +14,7 @@ from __future__ import annotations
 
 from .. import core, obs, seeds, worker
 from ..ref import calref, tzref
-from . import c12
+from . import c12, navmodel
 
 ID = "C16"
 AMBIENT = {"locale": "fr"}     # this module varies the other setting itself
@@ -162,7 +162,16 @@ def check_op(acc, pendulum, z, x, xf, op, unit, wd, nth, keep_time=False):
     sub = op if unit is None else f"{op}({unit})"
 
     def kf():
-        return "C16-anomalous-midnight" if kf_anomalous_day(z, xf, op, unit, None) else None
+        # known finding only if the input is in the anomalous class AND the observation is exactly what the documented
+        # day-walking composition (navmodel) produces there; anything else is reported
+        if not kf_anomalous_day(z, xf, op, unit, None):
+            return None
+        if status == "ok":
+            seen = ("ok", obs.fields(r), obs.offset_s(r))
+        else:
+            seen = (status,)
+        model = navmodel.emulate(z, tuple(xf), case["fold"], op, unit, wd, nth, keep_time)
+        return "C16-anomalous-midnight" if model == seen else None
 
     if exp == "raise":
         acc.outcomes["nth-outside-unit"] += 1
